@@ -46,12 +46,27 @@ Ltac norm_cmp :=
   | |- context [?x >? ?y] => rewrite (cmp_gt_lt x y)
   | |- context [?x >=? ?y] => rewrite (cmp_ge_le x y)
   end.
-Ltac bool_eq := solve [ reflexivity | lia | (norm_cmp; lia) ].
+(** * The second pass ("x-mode").
+    Every cascade is first run as it always was; only if that FAILS is it run again with the marker [XMode] in the
+    context, which switches on the (dearer) steps that see through respellings of integer / bit tests: bit masks,
+    constant shifts and the truthiness of integers as arithmetic facts for [lia], in the hypotheses as well as in the
+    goal ([bitfacts], below), [1 << k] as [2 ** k], tests that are equivalent under what is known identified before
+    they are analysed.  The marker is a hypothesis, so it is inherited by every subgoal and nothing has to be
+    threaded through the tactics; a definition whose regenerated text is the frozen one never pays for it. *)
+Inductive XMode : Prop := XModeOn.
+Ltac xmode_on := lazymatch goal with _ : XMode |- _ => idtac | _ => pose proof XModeOn end.
+Ltac if_x tac := idtac; lazymatch goal with _ : XMode |- _ => tac | _ => fail end.
+(* redefined below, once the arithmetic layer is there *)
+Ltac zleaf_x := fail.
+
+Ltac bool_eq := solve [ reflexivity | lia | (norm_cmp; lia) | if_x ltac:(zleaf_x) ].
 
 Ltac destruct_pairs :=
   repeat match goal with p : (_ * _)%type |- _ => destruct p end.
 
-Ltac arith_eq := solve [ reflexivity | lia | (f_equal; lia) | (norm_cmp; lia) ].
+(* redefined below ([zcong]), for the second pass *)
+Ltac zcong_x := fail.
+Ltac arith_eq := solve [ reflexivity | lia | (f_equal; lia) | (norm_cmp; lia) | if_x ltac:(zcong_x) ].
 
 Ltac bstep :=
   match goal with
@@ -83,7 +98,7 @@ Ltac bstep :=
   | |- Break _ = Break _ => f_equal
   | |- Return _ _ = Return _ _ => f_equal
   | |- Raise _ _ = Raise _ _ => f_equal
-  | |- _ = _ => solve [ lia | (f_equal; lia) | (repeat f_equal; lia) | reflexivity ]
+  | |- _ = _ => solve [ lia | (f_equal; lia) | (repeat f_equal; lia) | reflexivity | if_x ltac:(zcong_x) ]
   end.
 
 Ltac head_of t := match t with ?f _ => head_of f | _ => t end.
@@ -329,6 +344,85 @@ Ltac bitnorm :=
       rewrite (Z.lor_comm c x), (lor_add_num x c k p eq_refl eq_refl eq_refl) by lia
   end.
 
+(** [1 << k] is [2 ** k] for EVERY integer k (both are 0 for k < 0) *)
+Lemma shiftl_1_pow2 k : Z.shiftl 1 k = 2 ^ k.
+Proof.
+  destruct (Z_le_gt_dec 0 k) as [H|H].
+  - rewrite Z.shiftl_mul_pow2 by exact H. lia.
+  - rewrite Z.shiftl_div_pow2 by lia. rewrite (Z.pow_neg_r 2 k) by lia.
+    apply Z.div_small. split; [lia|]. apply Z.pow_gt_1; lia.
+Qed.
+(** a mask that is a run of w ones from bit k on (0x80, 0x40, 0x3F, 0x0F, 0x10, ...): the field it selects *)
+Lemma land_run_c a m k w p q :
+  (0 <=? k) = true -> (0 <=? w) = true -> (2 ^ k =? p) = true -> (2 ^ w =? q) = true -> ((q - 1) * p =? m) = true ->
+  Z.land a m = (a / p) mod q * p.
+Proof.
+  intros Hk Hw Hp Hq Hm. apply Z.leb_le in Hk, Hw. apply Z.eqb_eq in Hp, Hq, Hm. subst p q m.
+  replace ((2 ^ w - 1) * 2 ^ k) with (Z.shiftl (Z.ones w) k) by (rewrite Z.shiftl_mul_pow2, Z.ones_equiv by lia; lia).
+  replace ((a / 2 ^ k) mod 2 ^ w * 2 ^ k) with (Z.shiftl (Z.land (Z.shiftr a k) (Z.ones w)) k)
+    by (rewrite Z.shiftl_mul_pow2, Z.land_ones, Z.shiftr_div_pow2 by lia; reflexivity).
+  apply Z.bits_inj'. intros i Hi. rewrite Z.land_spec.
+  destruct (Z_lt_le_dec i k) as [L|L].
+  - rewrite !Z.shiftl_spec_low by lia. apply andb_false_r.
+  - rewrite !Z.shiftl_spec by lia. rewrite Z.land_spec, Z.shiftr_spec by lia.
+    replace (i - k + k) with i by lia. reflexivity.
+Qed.
+Lemma land_run_c' a m k w p q :
+  (0 <=? k) = true -> (0 <=? w) = true -> (2 ^ k =? p) = true -> (2 ^ w =? q) = true -> ((q - 1) * p =? m) = true ->
+  Z.land m a = (a / p) mod q * p.
+Proof. intros H1 H2 H3 H4 H5. rewrite Z.land_comm. exact (land_run_c a m k w p q H1 H2 H3 H4 H5). Qed.
+Lemma land_nonneg_c a m : (0 <=? m) = true -> 0 <= Z.land a m.
+Proof. intros H. apply Z.leb_le in H. apply Z.land_nonneg. right. exact H. Qed.
+Lemma land_nonneg_c' a m : (0 <=? m) = true -> 0 <= Z.land m a.
+Proof. intros H. rewrite Z.land_comm. apply land_nonneg_c. exact H. Qed.
+
+(** [bitfacts]: what [bitnorm] does by rewriting the goal, as FACTS -- one equation per mask / constant shift in sight, in
+    the goal or in a hypothesis (a test that was analysed earlier) -- so that [lia] reasons about both.  A mask that is
+    a run of ones selects a field: [a & 0x40 = (a / 64) mod 2 * 64]; of any other non-negative mask only the sign
+    of the result is recorded. *)
+Ltac no_fact_for t := lazymatch goal with _ : t = _ |- _ => fail | _ : 0 <= t |- _ => fail | _ => idtac end.
+Ltac land_fact a m flip :=
+  let k := eval vm_compute in (Z.log2 (Z.land m (- m))) in
+  let p := eval vm_compute in (2 ^ k) in
+  let w := eval vm_compute in (Z.log2 (m / p + 1)) in
+  let q := eval vm_compute in (2 ^ w) in
+  lazymatch eval vm_compute in ((0 <? m) && ((q - 1) * p =? m)) with
+  | true =>
+      lazymatch flip with
+      | false => lazymatch k with
+                 | 0 => pose proof (land_mod_c a m w q eq_refl eq_refl eq_refl)
+                 | _ => pose proof (land_run_c a m k w p q eq_refl eq_refl eq_refl eq_refl eq_refl)
+                 end
+      | true => lazymatch k with
+                | 0 => pose proof (land_mod_c' a m w q eq_refl eq_refl eq_refl)
+                | _ => pose proof (land_run_c' a m k w p q eq_refl eq_refl eq_refl eq_refl eq_refl)
+                end
+      end
+  | false =>
+      lazymatch eval vm_compute in (0 <=? m) with
+      | true => lazymatch flip with
+                | false => pose proof (land_nonneg_c a m eq_refl)
+                | true => pose proof (land_nonneg_c' a m eq_refl)
+                end
+      end
+  end.
+Ltac bitfact_for t :=
+  lazymatch t with
+  | Z.land ?a ?m => first [ znum m; no_fact_for t; land_fact a m false
+                          | znum a; no_fact_for t; land_fact m a true ]
+  | Z.shiftr ?a ?n => znum n; no_fact_for t; let p := eval vm_compute in (2 ^ n) in pose proof (shiftr_div_c a n p eq_refl eq_refl)
+  | Z.shiftl ?a ?n => znum n; no_fact_for t; let p := eval vm_compute in (2 ^ n) in pose proof (shiftl_mul_c a n p eq_refl eq_refl)
+  end.
+Ltac bitfacts :=
+  repeat match goal with
+  | |- context [Z.land ?a ?m] => bitfact_for (Z.land a m)
+  | |- context [Z.shiftr ?a ?n] => bitfact_for (Z.shiftr a n)
+  | |- context [Z.shiftl ?a ?n] => bitfact_for (Z.shiftl a n)
+  | _ : context [Z.land ?a ?m] |- _ => bitfact_for (Z.land a m)
+  | _ : context [Z.shiftr ?a ?n] |- _ => bitfact_for (Z.shiftr a n)
+  | _ : context [Z.shiftl ?a ?n] |- _ => bitfact_for (Z.shiftl a n)
+  end.
+
 (** * Equalities up to arithmetic *)
 Lemma len_nonneg_ {A} (l : list A) : 0 <= len l.
 Proof. unfold len. lia. Qed.
@@ -345,7 +439,14 @@ Ltac len_facts :=
 Ltac zleaf :=
   len_facts;
   solve [ lia | btauto | (norm_cmp; lia) | apply Z.land_comm | apply Z.lor_comm | apply Z.lxor_comm
-        | (bitnorm; lia) ].
+        | (bitnorm; lia) | if_x ltac:(zleaf_x) ].
+
+(** the leaf of the second pass (goal: an equation between integers or booleans, or [False]): truthiness of an
+    integer as [<> 0], [1 << k] as [2 ** k], the ranges of the octets and lengths, the masks and shifts as facts *)
+Ltac zleaf_x ::=
+  unfold truthy in *; rewrite ?shiftl_1_pow2 in *;
+  bz_facts; len_facts; bitfacts;
+  solve [ lia | (bitnorm; lia) ].
 
 (** [a = b] when a and b have the same shape down to integer / boolean sub-terms that are equal by
     arithmetic: congruence first (so that an integer inside an uninterpreted term is found), [lia] or
@@ -357,6 +458,8 @@ Ltac zcong :=
       first [ solve [ progress f_equal; zcong ]
             | lazymatch T with Z => zleaf | bool => zleaf | nat => zleaf end ]
   end.
+
+Ltac zcong_x ::= zcong.
 
 Ltac same_head a b := let ha := head_of a in let hb := head_of b in constr_eq ha hb.
 Ltac differ a b := tryif constr_eq a b then fail else idtac.
@@ -381,13 +484,22 @@ Ltac sync_goal x :=
     known from an earlier case analysis (the two sides do not always show a scrutinee at the same
     moment), rewrite with what is known.  Scrutinees that differ only by the spelling of an integer
     or boolean sub-term ([a + b] / [b + a]) are identified first. *)
+(** second pass: a test on integers has just been analysed; the case that contradicts what is known (the same test,
+    respelt, was analysed before: [x & 0x80] / [x >= 128] for an octet x, [n] / [n > 0] for a masked n) ends here *)
+Ltac is_int_test x :=
+  let T := type of x in constr_eq T bool;
+  lazymatch x with
+  | context [Z.eqb] => idtac | context [Z.ltb] => idtac | context [Z.leb] => idtac
+  | context [Z.gtb] => idtac | context [Z.geb] => idtac | context [truthy] => idtac
+  end.
+Ltac x_prune x := try (if_x ltac:(is_int_test x; solve [ exfalso; zleaf_x ])).
 Ltac break_match :=
   match goal with
   | |- context [match ?x with _ => _ end] =>
       no_match x;
       first [ match goal with H : x = _ |- _ => rewrite H end
             | sync_hyp x
-            | sync_goal x; destruct x eqn:? ]
+            | sync_goal x; destruct x eqn:?; x_prune x ]
   end.
 
 Ltac units := repeat match goal with u : unit |- _ => destruct u end.
@@ -414,10 +526,19 @@ Ltac tidy :=
     bridges of the definitions that the two sides call (they need not be convertible). *)
 Ltac lexpose :=
   cbv beta iota zeta delta [bind mbind sbind catch fst snd map_ctl map_lres obs_ctl truthy]; unfold_tperms.
+(* second pass, a goal with no case analysis left: what is known is contradictory (with the bit facts) *)
+(* [idtac;]: a tactic that begins with a [match] would be run while it is being passed as an argument (to [if_x]) *)
+Ltac x_leaf_false :=
+  idtac;
+  lazymatch goal with
+  | |- context [match _ with _ => _ end] => fail
+  | _ => exfalso; zleaf_x
+  end.
 Ltac lfinish :=
   units; tidy;
   solve [ reflexivity | congruence | (exfalso; len_facts; lia) | (exfalso; congruence) | zcong
-        | (exfalso; unfold truthy in *; len_facts; lia) ].
+        | (exfalso; unfold truthy in *; len_facts; lia)
+        | if_x ltac:(x_leaf_false) ].
 
 (** [for x in enumerate(xs, a)]: the index can be shifted into the body *)
 Lemma enumerate_from_shift {A} (k : Z) (xs : list A) : forall a,
@@ -681,8 +802,11 @@ Ltac unfold_heads :=
   | |- ?l = ?r => let hl := head_of l in let hr := head_of r in cbv delta [hl hr]
   end.
 Ltac bridge_auto := intros; unfold_heads; norm_consts; repeat (cbv beta iota; bstep).
-Ltac bridge_crush callees := intros; unfold_heads; norm_consts; lcrush callees.
+(** the case analysis; if it fails, once more in x-mode *)
+Ltac bridge_crush callees :=
+  intros; unfold_heads; norm_consts; first [ lcrush callees | (xmode_on; lcrush callees) ].
 (** [bridge_with callees]: the cascade for a definition that calls other bridged definitions *)
 Ltac bridge_with callees :=
-  first [ reflexivity | (intros; reflexivity) | solve [ bridge_auto ] | solve [ bridge_crush callees ] ].
+  first [ reflexivity | (intros; reflexivity) | solve [ bridge_auto ] | solve [ intros; xmode_on; bridge_auto ]
+        | solve [ bridge_crush callees ] ].
 Ltac bridge := bridge_with idtac.
